@@ -149,8 +149,6 @@ pub trait AuthOwner: HasBytes {
 	where
 		Self: 'a;
 	fn open_auth(&mut self) -> Option<Self::H<'_>>;
-	/// obtains a handle and consumes it with `into_authority()`: (offset, len) of the result in the buffer
-	fn into_authority_window(&mut self) -> Option<(usize, usize)>;
 }
 
 macro_rules! family {
@@ -252,14 +250,6 @@ macro_rules! owner_impl {
 			type H<'a> = $fam::AuthorityMut<'a>;
 			fn open_auth(&mut self) -> Option<$fam::AuthorityMut<'_>> {
 				self.authority_mut()
-			}
-			fn into_authority_window(&mut self) -> Option<(usize, usize)> {
-				let (p, l) = {
-					let h = self.authority_mut()?;
-					let a = h.into_authority();
-					(a.as_bytes().as_ptr() as usize, a.as_bytes().len())
-				};
-				Some((p.wrapping_sub(self.as_bytes().as_ptr() as usize), l))
 			}
 		}
 	};
